@@ -202,11 +202,23 @@ Definition spec_endpoint (method path : string) : option string :=
        | _ => None
        end.
 
+(* the methods the extracted table lists for the /query/ sub-router *)
+Definition query_methods : list string :=
+  flat_map (fun r => if String.eqb (t_kind r) "sub" && String.eqb (sub_prefix (t_b r)) "/query/"
+                     then sub_methods (t_b r) else []) (c25_lns_table ++ c25_otlp_table).
+
+Definition is_query_route (r : route) : bool :=
+  smem (rt_handler r) sensitive || (match rt_prefix r with p :: _ => String.eqb p "query" | [] => false end).
+
 (* what the table has to satisfy: every route that runs a sensitive handler, and every route below /query/,
-   is behind the token check; the checker's text is the one modelled; its error is a 4xx *)
+   is behind the token check and is restricted to the (non-empty) method list extracted for the /query/
+   sub-router; the checker's source is exactly the modelled text and never looks at the request method, so its
+   verdict is the same for every method; its error is a 4xx *)
 Definition route_guarded (r : route) : bool :=
-  if smem (rt_handler r) sensitive || (match rt_prefix r with p :: _ => String.eqb p "query" | [] => false end)
-  then smem checker_name (rt_mws r) else true.
+  if is_query_route r
+  then smem checker_name (rt_mws r) &&
+       list_eqb String.eqb (rt_methods r) query_methods && negb (match query_methods with [] => true | _ => false end)
+  else true.
 Definition table_ok : bool :=
-  forallb route_guarded routes && c25_checker_frame_ok &&
+  forallb route_guarded routes && c25_checker_frame_ok && negb c25_checker_looks_at_method &&
   (400 <=? fst (err_reply "ErrAuthNeeded" ""))%N && (fst (err_reply "ErrAuthNeeded" "") <? 500)%N.
